@@ -670,7 +670,14 @@ def check_compute_order(ctx, rule="TAB-compute-order"):
   # _compute_styles iterates that tuple in order and dispatches by BY_STYLE_PROP
   cs = ix.func(f"{ISD}._compute_styles")
   loops = [n for n in own_nodes(cs.node) if isinstance(n, ast.For)]
-  ok = len(loops) == 1 and unparse(loops[0].iter).endswith("_ORDERED_STYLE_PROPS") and "BY_STYLE_PROP" in unparse(loops[0]) and ".compute(" in unparse(loops[0])
+  def in_order(it):
+    # the table itself, or an order-preserving copy of it (list(X), tuple(X), X[:])
+    while isinstance(it, ast.Call) and isinstance(it.func, ast.Name) and it.func.id in ("list", "tuple", "iter") and len(it.args) == 1:
+      it = it.args[0]
+    if isinstance(it, ast.Subscript) and isinstance(it.slice, ast.Slice) and it.slice.lower is None and it.slice.upper is None and it.slice.step is None:
+      it = it.value
+    return unparse(it).endswith("_ORDERED_STYLE_PROPS")
+  ok = len(loops) == 1 and in_order(loops[0].iter) and "BY_STYLE_PROP" in unparse(loops[0]) and ".compute(" in unparse(loops[0])
   ctx.check(ok, rule, f"{cs.qualname}|iterates _ORDERED_STYLE_PROPS in order", ctx.where(cs.module, cs.node), "single in-order loop",
             "_compute_styles no longer iterates ISD._ORDERED_STYLE_PROPS in order (sorted/reversed/other container)")
   return len(reads)
